@@ -55,6 +55,9 @@ def cases(tier, seed):
     for q in al.Q_ORDER:
         fam.append(["G", "Q." + q])
         fam.append(["G", "Q." + q + "@cw"])
+    # tiny shapes: the integrals are far below any absolute tolerance and must still be right
+    fam += [["SCL", "Q." + q, "1/1024"] for q in ("c8", "lens", "blob", "mixg", "ftri")]
+    fam += [["V", [[0, 0], ["1/10", 0], [0, "1/10"]]], ["V", [["1/1000", "1/1000"], ["3/1000", "1/1000"], ["2/1000", "4/1000"]]], ["V", [[0.0, 0.0], [1e-5, 0.0], [1e-5, 1e-5], [0.0, 1e-5]]]]
     fam += [["SP", ["L", "P.triA#int"]], ["SP", ["L", "Q.mixg"]], ["SP", ["PC", "hollow", "frac"]], ["SP", ["L", "Q.blob@cw"]]]
     fam += [["CQ", "ringc"], ["CQ", "twoc"], ["CQ", "xringc"]]
     for n in range(0, len(fam), 24):
